@@ -207,4 +207,9 @@ def suite_reentrant(ctx):
     return reentrant.suite_reentrant(ctx)
 
 
-SUITES = [suite_call, suite_edges, suite_callw, suite_two_clients, suite_reentrant]
+def suite_user_code(ctx):
+    """an application that extends the library with classes of its own (child process: harness/user_child.py vendor_service)"""
+    return core.suite_user_code('vendor_service', 'send_request')
+
+
+SUITES = [suite_call, suite_edges, suite_callw, suite_two_clients, suite_reentrant, suite_user_code]
